@@ -96,7 +96,8 @@ class World:
                 self.removed_data.append(d)
             dc.remove(d)
         elif k == 'newgroup':
-            g = dc.new_subset_group(subset_state=self.cx > op[1])
+            # every group is given the same label (groups may share one; a grouped subset shows its group's label)
+            g = dc.new_subset_group(label='selection', subset_state=self.cx > op[1])
             self.all_groups.append(g)
         elif k == 'rmgroup':
             g = self.group(op[1])
@@ -152,7 +153,7 @@ class World:
         elif k == 'delay-append-newgroup':
             # a group is created while an outer delay block is open and a dataset is appended inside that block
             with dc.hub.delay_callbacks():
-                g = dc.new_subset_group(subset_state=self.cx > 0)
+                g = dc.new_subset_group(label='selection', subset_state=self.cx > 0)
                 self.all_groups.append(g)
                 dc.append(D[op[1]])
         elif k == 'save-restore':
